@@ -417,6 +417,50 @@ def build_event(ev: dict, order=None, shared=None):
 # ------------------------------------------------------------------ whole scenarios
 
 
+def avoid_f13(sc, rng):
+    """avoid the inputs of known finding F13 (an affected industry / household column that buys nothing from a rebuilding
+    sector): pick rebuilding sectors that do have suppliers, else make the event a recovery one"""
+    tb = sc["table"]
+    if True:
+        regs, secs, cats = labels(tb)
+        n_, m_, k_ = tb["n"], tb["m"], tb["k"]
+        for ev in sc["events"]:
+            if ev["type"] != "rebuild":
+                continue
+            oksecs = []
+            for si, sname in enumerate(secs):
+                good = True
+                for key in ev["impact"]:
+                    r, s = key.split("|")
+                    j = regs.index(r) * n_ + secs.index(s)
+                    if sum(tb["Z"][rr * n_ + si][j] for rr in range(m_)) == 0:
+                        good = False
+                for key in (ev.get("house") or {}):
+                    r, c = key.split("|")
+                    j = regs.index(r) * k_ + cats.index(c)
+                    if sum(tb["Y"][rr * n_ + si][j] for rr in range(m_)) == 0:
+                        good = False
+                if good:
+                    oksecs.append(sname)
+            if all(s in oksecs for s in ev["reb_sectors"]):
+                continue
+            if not oksecs:
+                ev["type"] = "recovery"
+                ev["recovery_tau"] = ev.pop("rebuild_tau")
+                ev["curve"] = "linear"
+                ev.pop("reb_sectors")
+                ev.pop("factor")
+                continue
+            shares = list(ev["reb_sectors"].values())[: len(oksecs)]
+            tot_sh = sum(shares)
+            chosen = rng.sample(oksecs, len(shares))
+            ev["reb_sectors"] = {s: v / tot_sh for s, v in zip(chosen, shares)}
+            if len(shares) == 1:
+                ev["reb_sectors"] = {chosen[0]: 1.0}
+
+    return sc
+
+
 def gen_scenario(seed: int, stream: str = "shocked", **over) -> dict:
     rng = random.Random(seed)
     if stream == "starve":
@@ -507,44 +551,8 @@ def gen_scenario(seed: int, stream: str = "shocked", **over) -> dict:
             for kk in ev["impact"]:
                 ev["impact"][kk] *= rng.choice([2.0, 3.0])
         sc["events"].append(ev)
-    # avoid the inputs of known finding F13 (an affected industry / household column that buys nothing
-    # from a rebuilding sector): pick rebuilding sectors that do have suppliers, else make it a recovery
     if not over.get("allow_f13"):
-        regs, secs, cats = labels(tb)
-        n_, m_, k_ = tb["n"], tb["m"], tb["k"]
-        for ev in sc["events"]:
-            if ev["type"] != "rebuild":
-                continue
-            oksecs = []
-            for si, sname in enumerate(secs):
-                good = True
-                for key in ev["impact"]:
-                    r, s = key.split("|")
-                    j = regs.index(r) * n_ + secs.index(s)
-                    if sum(tb["Z"][rr * n_ + si][j] for rr in range(m_)) == 0:
-                        good = False
-                for key in (ev.get("house") or {}):
-                    r, c = key.split("|")
-                    j = regs.index(r) * k_ + cats.index(c)
-                    if sum(tb["Y"][rr * n_ + si][j] for rr in range(m_)) == 0:
-                        good = False
-                if good:
-                    oksecs.append(sname)
-            if all(s in oksecs for s in ev["reb_sectors"]):
-                continue
-            if not oksecs:
-                ev["type"] = "recovery"
-                ev["recovery_tau"] = ev.pop("rebuild_tau")
-                ev["curve"] = "linear"
-                ev.pop("reb_sectors")
-                ev.pop("factor")
-                continue
-            shares = list(ev["reb_sectors"].values())[: len(oksecs)]
-            tot_sh = sum(shares)
-            chosen = rng.sample(oksecs, len(shares))
-            ev["reb_sectors"] = {s: v / tot_sh for s, v in zip(chosen, shares)}
-            if len(shares) == 1:
-                ev["reb_sectors"] = {chosen[0]: 1.0}
+        avoid_f13(sc, rng)
     # keep the sum of capital impacts per industry below the capital stock (else: rejection stream)
     if not over.get("allow_excess"):
         regs, secs, cats = labels(tb)
